@@ -770,6 +770,8 @@ def gen_ns_validation(rng, n):
         f = rand_fields(rng, 1.0)
         f["ns"] = rng.choice([999999999, 1000000000, 1000000001, 2147483647, 0])
         k = i % 5
+        if f["ns"] == 2147483647 and k != 4 and rng.random() < 0.7:
+            f["nsw"] = W(rng.choice([2**31, 2**31 + 1, 2**32 - 1, 3 * 10**9, 4 * 10**9]))      # beyond i32: the harness passes this value
         if k == 4:
             # the (seconds, nanoseconds) constructors take the pair as it is (no carry, no refusal), all of them alike
             t = interesting_instant(rng) if rng.random() < 0.5 else rng.randint(-10**10, 10**10)
@@ -842,6 +844,16 @@ def gen_c14(rng, n):
             t2 = L - off + rng.choice([0, 0, 0, 1, -1])
             b = {"t": W(t2), "ns": rng.choice([ns, ns, 0, 999999999]), "type": rand_type(rng, "small")}
             yield {"op": "dtcmp", "a": {"a": a, "b": b} if rng.random() < 0.5 else {"a": b, "b": a}}
+        elif k < 0.695:
+            # one field one step beyond its range, through the zoned constructor (the day after each month's end, leap Februaries too)
+            f = rand_fields(rng, 1.0)
+            y = rng.choice([2024, 2000, 1900, 2023, -4, -100, 2400, f["y"]])
+            mo = rng.randint(1, 12)
+            fld = rng.choice(["d", "d", "h", "mi", "s", "mo", "ns"])
+            f.update({"y": y, "mo": mo, "d": rng.randint(1, 28)})
+            f[fld] = {"d": dim(y, mo) + rng.choice([1, 1, 2]), "h": 24, "mi": 60, "s": 61, "mo": rng.choice([0, 13]), "ns": 10**9}[fld]
+            f["type"] = ty
+            yield {"op": "newdt", "a": f}
         elif k < 0.705:
             # second 60 in the last minute of a local day: the date fields stay on that day, the instant is the next midnight
             f = rand_fields(rng, 1.0)
@@ -1295,7 +1307,7 @@ def gen_render(rng, n):
 
 
 # ---- C09 ----
-TZ_NAMES = ["EST", "EDT", "CET", "CEST", "<-03>", "<+0530>", "<+14>", "ABCDEFG", "NZST", "AB", "ABCDEFGH", "<A B>", "<AB", "A1B", "<A1B>", "", "<>", "<->"]
+TZ_NAMES = ["<A_B>", "<+03:30>", "<A<B>", "<D/E>", "<A.B>", "<AB*>", "EST", "EDT", "CET", "CEST", "<-03>", "<+0530>", "<+14>", "ABCDEFG", "NZST", "AB", "ABCDEFGH", "<A B>", "<AB", "A1B", "<A1B>", "", "<>", "<->"]
 TZ_OFFS = ["5", "05", "+5", "-5", "5:30", "-0:30", "5:30:15", "24", "25", "24:59:59", "0", "-10", "+0", "-0", "5:60", "5:", "", "00005", "-24:59:59", "12:34:56", "1:2:3", "99999999999", "4294967296", "4294967301", "9999999999", "0:4294967296", "1:0:4294967297", "256", "65541"]
 TZ_DAYS = ["M03.2.0", "M3.02.0", "M3.2.00", "M003.05.06", "J060", "059", "J0365", "0365", "M259.2.0", "M3.258.0", "M3.2.256", "M3.2.262", "J65537", "65536", "J4294967297", "M3.0.1", "M3.2.1", "M3.2.0", "M11.1.0", "M10.5.0", "M1.1.0", "M12.5.6", "J60", "J300", "J1", "J365", "59", "300", "0", "365", "J0", "J366", "366", "M13.1.0", "M3.6.0", "M3.2.7", "M3.2", "M0.1.0", "M2.5.3", ""]
 TZ_TIMES = ["/02", "/002:00", "/2:00:00", "/24:30", "/24:59:59", "/-0:30", "/-0:00:01", "", "/2", "/0", "/24", "/25", "/-1", "/+2", "/167", "/168", "/2:30", "/-0:30", "/24:59:59", "/", "/2:60", "/-167:59:59", "/02:00:00", "/26", "/3:00:00"]
@@ -1363,7 +1375,7 @@ def corpus_files():
     return sorted(out)
 
 
-INTERESTING_FILES = ["Africa/Casablanca", "Asia/Gaza", "America/Godthab", "America/Nuuk", "America/Adak", "Europe/Dublin", "Asia/Tbilisi", "Europe/Moscow", "Asia/Pyongyang",
+INTERESTING_FILES = ["Africa/Cairo", "Africa/Casablanca", "Asia/Gaza", "America/Godthab", "America/Nuuk", "America/Adak", "Europe/Dublin", "Asia/Tbilisi", "Europe/Moscow", "Asia/Pyongyang",
                      "America/New_York", "Australia/Lord_Howe", "Antarctica/Troll", "Asia/Jerusalem", "America/Santiago", "Pacific/Apia", "right/UTC", "right/Europe/London",
                      "right/America/New_York", "right/Asia/Hovd", "right/Indian/Chagos", "Etc/UTC", "Factory", "EST5EDT", "Pacific/Kiritimati", "Africa/Monrovia", "Asia/Kathmandu"]
 
@@ -1484,6 +1496,8 @@ def synth_tzif(rng):
     def times(lo, hi, n):
         return sorted(rng.sample(range(lo, hi), n))
     t64 = times(-2**40, 2**40, ntr) if rng.random() < 0.7 else times(-2**31, 2**31 - 1, ntr)
+    if ntr >= 2 and ver != 0 and rng.random() < 0.15:
+        t64[0] = rng.choice([-2**63, -2**63 + 1, -2**62])            # the first of several transitions may sit at the bottom of the range
     idxs = [rng.randrange(ntypes) for _ in range(ntr)]
     leaps = []
     if rng.random() < 0.3:
@@ -1592,6 +1606,14 @@ def gen_resolve(rng, n):
                         vfs.append([B(d + "/" + pn.lstrip(":")), list(tiny_tzif(rng))])
             a["pre"] = pre
         yield {"op": "resolve", "a": a, "g": 1}
+    for e in gen_tzstrings(rng, max(60, n // 12)):
+        if e["a"]["via"] == "settings":
+            try:
+                txt = bytes(e["a"]["s"]).decode("utf-8")
+            except UnicodeDecodeError:
+                continue
+            if txt and not txt.startswith(":") and "/" not in txt.split(",")[0]:
+                yield {"op": "resolve", "a": {"s": B(txt), "dirs": [B("/a"), B("/b")], "vfs": [], "via": "posix"}, "g": 1}
     # white space that is not ASCII white space is part of the value: a description padded with it is not a description
     for ws in ["\x0b", "\u0085", "\u00a0", "\u2000", "\u2003", "\u2028", "\u3000", "\x1c"]:
         for desc in ["HST10", "UTC0", "EST5EDT,M3.2.0,M11.1.0"]:
@@ -1683,6 +1705,9 @@ def gen_hostile_strings(rng, n):
 
 def gen_hostile_numbers(rng, n):
     yield from gen_zone_session(rng, gen_huge_type_list_zone(rng), nprobe=12, do_find=True)
+    for c in list(range(0x7f, 0x100)) + [0, 1, 0x1f, 0x20, 0x2c, 0x2f, 0x3a, 0x40, 0x5b, 0x60, 0x7b]:
+        for des in ([c, 65, 66], [65, 66, c], [c] * 7):
+            yield {"op": "type", "a": {"off": 0, "dst": 0, "des": des, "nodes": 0, "via": "new"}}
     ext64 = [I64MIN, I64MIN + 1, I64MAX, I64MAX - 1, MINT, MAXT, MINT - 1, MAXT + 1, 0, -1]
     ext32 = [I32MIN + 1, I32MAX, 0, -1, 1, I32MIN + 2, I32MAX - 1]
     for _ in range(n):
